@@ -8,7 +8,8 @@ DOC = ('Maintenance of the user-defined (CREATE INDEX) indexes on DML, storage d
        'becomes empty) and appends it to the NEW key\'s list; delete takes it out of the row\'s key; every other key is untouched. Each key component is '
        'the value of the column NAMED in the index definition, prefix-truncated and normalized (the four key-building closures). C15: the insert step and '
        'the update step KEEP THE MIRROR - the map holds under each key exactly the positions of the rows with that key, each once, no empty list - '
-       '(checked compositions of the real steps with the lemmas lemma_uinsert / lemma_uupdate).')
+       '(checked compositions of the real steps with the lemmas lemma_uinsert / lemma_uupdate) - and the rebuild step of rebuild_indexes PRODUCES it: whatever the '
+       'map held, after the step it is the mirror of the rows handed in (loop invariant over the rows + lemma_uinsert).')
 
 TEMPLATE = r'''
 use vstd::prelude::*;
@@ -45,7 +46,22 @@ pub open spec fn col_ok(col: IndexColumn, schema: &TableSchema, row: Row) -> boo
     schema.col_index(col.column_name) is Some && schema.col_index(col.column_name)->Some_0 < row.values@.len()
 }
 
+/// the index key of a row: one component per index column, in definition order
+pub open spec fn key_of(cols: Seq<IndexColumn>, schema: &TableSchema, row: Row) -> Key { Seq::new(cols.len(), |j: int| key_part(cols[j], schema, row)) }
+pub open spec fn cols_ok(cols: Seq<IndexColumn>, schema: &TableSchema, row: Row) -> bool { forall|j: int| 0 <= j < cols.len() ==> col_ok(#[trigger] cols[j], schema, row) }
+/// keys[j] = the index key of the row at position j
+pub open spec fn keys_of(cols: Seq<IndexColumn>, schema: &TableSchema, rows: Seq<Row>) -> Seq<Key> { Seq::new(rows.len(), |j: int| key_of(cols, schema, rows[j])) }
+// metadata.columns.iter().map(<the key closure, verified as key_rebuild>).collect()
+#[verifier::external_body]
+fn build_key(cols: &Vec<IndexColumn>, schema: &TableSchema, row: &Row) -> (r: Vec<SqlValue>)
+    requires cols_ok(cols@, schema, *row),
+    ensures r@ == key_of(cols@, schema, *row)
+{ unimplemented!() }
+// the disk-backed arm of rebuild_indexes (sort + BTreeIndex::bulk_load): not under contract
+#[verifier::external_body] fn rebuild_disk_backed(btree: &mut SharedTree, page_manager: &Opq) { unimplemented!() }
+
 //@@ key_insert
+//@@ key_rebuild
 //@@ key_update_old
 //@@ key_update_new
 //@@ key_delete
@@ -72,6 +88,8 @@ impl KeyMap {
     pub fn is_empty_at(&self, k: &Vec<SqlValue>) -> (r: bool)
         requires self.view().dom().contains(k@),
         ensures r == (self.view()[k@].len() == 0) { unimplemented!() }
+    #[verifier::external_body]
+    pub fn clear(&mut self) ensures final(self).view() == Map::<Key, Seq<usize>>::empty() { unimplemented!() }
     #[verifier::external_body]
     pub fn remove(&mut self, k: &Vec<SqlValue>) -> (r: Option<Vec<usize>>)
         ensures final(self).view() == old(self).view().remove(k@) { unimplemented!() }
@@ -104,6 +122,7 @@ pub open spec fn ix_with(m: Ix, k: Key, p: usize) -> Ix {
 //@@ insert_step
 //@@ update_step
 //@@ delete_step
+//@@ rebuild_step
 
 /// THE MIRROR for a user-defined index: `keys[j]` is the index key of the row at position j; the map holds, under each key, exactly the
 /// positions of the rows with that key - each once, no key with an empty list (what a rebuild from the rows produces, up to the order in a list)
@@ -279,6 +298,46 @@ ITEMS = {
     'key_update_old': _key('update_indexes_for_update', 0, ('update_old', 'old_row')),
     'key_update_new': _key('update_indexes_for_update', 1, ('update_new', 'new_row')),
     'key_delete': _key('update_indexes_for_delete', 0, ('delete', 'row')),
+    'key_rebuild': dict(file=_F, path='impl IndexManager::fn rebuild_indexes', ret='r',
+                fragment=dict(kind='closure', index=2, expect_params='col', sig='fn key_rebuild(col: &IndexColumn, table_schema: &TableSchema, row: &Row) -> SqlValue'),
+                rewrites=_KEYRW,
+                contract='''
+    requires col_ok(*col, table_schema, *row),
+    ensures r == key_part(*col, table_schema, *row),
+'''),
+    'rebuild_step': dict(
+        file=_F, path='impl IndexManager::fn rebuild_indexes',
+        fragment=dict(kind='match', index=0, expect_scrutinee='index_data',
+                      sig='fn rebuild_step(index_data: &mut IndexData, metadata: &IndexMetadata, table_schema: &TableSchema, table_rows: &[Row])'),
+        # R6b: the key closure inside the in-memory arm (verified as key_rebuild) becomes a call
+        elide=[dict(kind='closure', index=0, expect_params='col', to='KEY_OF__row')],
+        rewrites=[
+            # the disk-backed arm (sort_by + BTreeIndex::bulk_load + lock) is opaque
+            ('re', r'(?s)IndexData::DiskBacked \{ btree, page_manager \} => \{.*\Z', 'IndexData::DiskBacked { btree, page_manager } => { rebuild_disk_backed(btree, page_manager); }\n    }\n}', 1),
+            ('re', r'(?s)metadata\s*\.columns\s*\.iter\(\)\s*\.map\(KEY_OF__(\w+)\)\s*\.collect\(\)', r'build_key(&metadata.columns, table_schema, \1)', 1),
+            ('re', r'for \(row_index, row\) in table_rows\.iter\(\)\.enumerate\(\) \{', 'let mut ri__: usize = 0; while ri__ < table_rows.len() { let row = &table_rows[ri__]; let row_index = ri__; ri__ = ri__ + 1;', 1),
+        ] + _STEPRW,
+        loops={0: '''
+            invariant
+                ri__ <= table_rows@.len(),
+                forall|j: int| 0 <= j < table_rows@.len() ==> cols_ok(metadata.columns@, table_schema, #[trigger] table_rows@[j]),
+                umirror(data.view(), keys_of(metadata.columns@, table_schema, table_rows@).take(ri__ as int)),
+            decreases table_rows@.len() - ri__,
+'''},
+        proofs=[('data.push_at(key_values, row_index);', '''proof {
+                    let ghost ks = keys_of(metadata.columns@, table_schema, table_rows@);
+                    lemma_uinsert(data.view(), ks.take(row_index as int), key_values@);
+                    assert(ks.take(row_index as int).push(key_values@) =~= ks.take(row_index as int + 1));
+                }'''),
+                ('after:data.clear();', 'proof { assert(keys_of(metadata.columns@, table_schema, table_rows@).take(0) =~= Seq::<Key>::empty()); }'),
+                ('@afterloop0', 'proof { let ghost ks = keys_of(metadata.columns@, table_schema, table_rows@); assert(ks.take(ks.len() as int) =~= ks); }')],
+        contract='''
+    requires forall|j: int| 0 <= j < table_rows@.len() ==> cols_ok(metadata.columns@, table_schema, #[trigger] table_rows@[j]),
+    ensures
+        // A REBUILD PRODUCES THE MIRROR of the rows it is handed: under each key exactly the positions of the rows with that key, whatever the map held before
+        (*old(index_data)) is InMemory ==> (*final(index_data)) is InMemory
+            && umirror((*final(index_data))->InMemory_data.view(), keys_of(metadata.columns@, table_schema, table_rows@)),
+'''),
     'insert_step': dict(
         file=_F, path='impl IndexManager::fn add_to_indexes_for_insert',
         fragment=dict(kind='match', index=0, expect_scrutinee='index_data',
@@ -316,6 +375,8 @@ OBLIGATIONS = {
     'key_update_old': ['post:key_component_is_the_named_column_of_the_old_row'],
     'key_update_new': ['post:key_component_is_the_named_column_of_the_new_row'],
     'key_delete': ['post:key_component_is_the_named_column_prefix_truncated_and_normalized'],
+    'key_rebuild': ['post:key_component_is_the_named_column_prefix_truncated_and_normalized'],
+    'rebuild_step': ['post:a_rebuild_produces_the_mirror_of_the_rows_whatever_was_there_before', 'proof:loop_invariant_and_termination', 'safety:index_in_bounds'],
     'insert_step': ['post:position_appended_to_the_rows_key_nothing_else_changes'],
     'update_step': ['post:position_leaves_the_old_key_and_enters_the_new_key_nothing_else_changes'],
     'delete_step': ['post:position_leaves_the_rows_key_nothing_else_changes'],
@@ -331,5 +392,6 @@ TRUSTED = [
     'SqlValue, Str, Opq, TableSchema opaque (TableSchema::get_column_index: uninterpreted function col_index of the name); norm / trunc = normalize_for_comparison / apply_prefix_truncation uninterpreted (external_body stubs); Option::expect rewritten to expect_col, which REQUIRES Some (a missing index column would panic: precondition col_ok, established by CREATE INDEX validation); Row / IndexColumn reduced to the fields read',
     'the disk-backed arm (SharedTree, TreeGuard, acquire_btree_lock) is opaque and NOT under contract; observed there: update calls BTreeIndex::delete(old_key), which is handed no row position',
     'C15 mirror (umirror) is over the key SEQUENCE keys[j] = index key of the row at position j; the order of positions inside one key list is not part of it (a rebuild lists them ascending; DML appends); insert_step_keeps_mirror / update_step_keeps_mirror are verified wrapper functions written here (not repository code) that call the extracted steps through their contracts',
+    'rebuild_step: the in-memory arm of the `match index_data` in IndexManager::rebuild_indexes; its key closure is elided to build_key (R6b; the closure itself is verified as key_rebuild; `metadata.columns.iter().map(closure).collect()` ASSUMED to apply it to every index column in order); the disk-backed arm (sort_by + BTreeIndex::bulk_load + lock) is replaced by the opaque rebuild_disk_backed; KeyMap::clear = BTreeMap::clear',
     'that positions stay valid after a DELETE (they shift) is not maintained by delete_step but by the rebuild that follows (units I-resolve, K-undo)',
 ]
